@@ -5,11 +5,11 @@
 //! that WRONGTYPE paths are reached; a string key; a key that is rarely written),
 //! indices / counts around 0, +-len, +-(len+-1) and the isize/i64 extremes, duplicate
 //! elements, plus a malformed share (arity, non-bulk argument, non-integer).
-//! Inputs that make the unchanged server panic (LREM isize::MIN, SRANDMEMBER with
-//! i64::MIN or a huge negative count, HINCRBY overflow) are NOT generated: they are
-//! findings with witnesses under corpus/C03/disabled/.  For HINCRBY the generator keeps
-//! a sound interval per (key, field) of the values the field may hold, and only emits
-//! increments that cannot overflow (the exact boundary i64::MAX is reached).
+//! The boundary values that used to crash the server (LREM isize::MIN, SRANDMEMBER i64::MIN,
+//! HINCRBY across the i64 range) are part of the pools since the repairs c5f1b6a, 6f35e51,
+//! 84546fc.  Still NOT generated: SRANDMEMBER with a huge negative count - the server draws
+//! |count| members one by one whatever the set's size (known finding srandmember-neg-work;
+//! witnesses under corpus/C03/disabled/).
 use crate::resp::V;
 use crate::rng::Rng;
 use crate::srv::*;
@@ -28,9 +28,9 @@ pub const IDX: &[&[u8]] = &[b"0", b"1", b"-1", b"2", b"-2", b"3", b"-3", b"4", b
     b"100", b"-100", b"9223372036854775807", b"-9223372036854775808", b"-9223372036854775807", b"x", b"", b"+2", b"1.5",
     b"9223372036854775808"];
 pub const LREM_COUNTS: &[&[u8]] = &[b"0", b"1", b"-1", b"2", b"-2", b"3", b"-3", b"100", b"-100", b"9223372036854775807",
-    b"-9223372036854775807", b"x", b"+1", b"0"];
+    b"-9223372036854775807", b"-9223372036854775808", b"x", b"+1", b"0"];
 pub const SRAND_COUNTS: &[&[u8]] = &[b"0", b"1", b"2", b"3", b"4", b"5", b"-1", b"-2", b"-3", b"-5", b"-20", b"100",
-    b"9223372036854775807", b"x", b"", b"+2"];
+    b"9223372036854775807", b"-9223372036854775808", b"x", b"", b"+2"];
 pub const SPOP_COUNTS: &[&[u8]] = &[b"0", b"1", b"2", b"3", b"5", b"100", b"18446744073709551615", b"-1", b"x", b"+1",
     b"18446744073709551616"];
 pub const INCRS: &[&[u8]] = &[b"1", b"-1", b"5", b"7", b"-7", b"100", b"9223372036854775807", b"-9223372036854775808",
@@ -38,10 +38,10 @@ pub const INCRS: &[&[u8]] = &[b"1", b"-1", b"5", b"7", b"-7", b"100", b"92233720
 
 fn rust_i64(v: &[u8]) -> Option<i128> { std::str::from_utf8(v).ok().and_then(|s| s.parse::<i64>().ok()).map(|x| x as i128) }
 
-pub struct Gen { pub r: Rng, iv: HashMap<(Vec<u8>, Vec<u8>), (i128, i128)> }
+pub struct Gen { pub r: Rng }
 
 impl Gen {
-    pub fn new(r: Rng) -> Gen { Gen { r, iv: HashMap::new() } }
+    pub fn new(r: Rng) -> Gen { Gen { r } }
     fn pick(&mut self, p: &[&[u8]]) -> Vec<u8> { self.r.pick(p).to_vec() }
     fn any_key(&mut self) -> Vec<u8> {
         match self.r.below(4) { 0 => self.pick(LKEYS), 1 => self.pick(SKEYS), 2 => self.pick(HKEYS), _ => self.pick(OKEYS) }
@@ -49,22 +49,6 @@ impl Gen {
     fn key(&mut self, pool: &[&[u8]]) -> Vec<u8> {
         let x = self.r.below(20);
         if x < 15 { self.pick(pool) } else if x < 19 { self.any_key() } else { b"nokey".to_vec() }
-    }
-    /// a hash write of [v] to (k, f) may or may not take effect
-    fn note_write(&mut self, k: &[u8], f: &[u8], v: &[u8]) {
-        if let Some(x) = rust_i64(v) {
-            let e = self.iv.entry((k.to_vec(), f.to_vec())).or_insert((0, 0));
-            e.0 = e.0.min(x); e.1 = e.1.max(x);
-        }
-    }
-    /// is HINCRBY k f inc free of overflow whatever the field holds; records the effect
-    fn incr_safe(&mut self, k: &[u8], f: &[u8], inc: &[u8]) -> bool {
-        let x = match rust_i64(inc) { Some(x) => x, None => return true };
-        let e = self.iv.entry((k.to_vec(), f.to_vec())).or_insert((0, 0));
-        let (lo, hi) = (e.0 + x, e.1 + x);
-        if lo < i64::MIN as i128 || hi > i64::MAX as i128 { return false; }
-        e.0 = e.0.min(lo); e.1 = e.1.max(hi);
-        true
     }
     fn elems(&mut self, max: u64) -> Vec<Vec<u8>> { let n = 1 + self.r.below(max); (0..n).map(|_| self.pick(ELEMS)).collect() }
 
@@ -102,7 +86,7 @@ impl Gen {
             69..=75 => {
                 let name: &[u8] = if self.r.chance(1, 4) { b"HMSET" } else { b"HSET" };
                 let k = self.key(HKEYS); let n = 1 + self.r.below(3); let mut c = vec![v(name), k.clone()];
-                for _ in 0..n { let f = self.pick(FIELDS); let x = self.pick(HVALUES); self.note_write(&k, &f, &x); c.push(f); c.push(x); }
+                for _ in 0..n { let f = self.pick(FIELDS); let x = self.pick(HVALUES); c.push(f); c.push(x); }
                 c
             }
             76..=77 => vec![v(b"HGET"), self.key(HKEYS), self.pick(FIELDS)],
@@ -113,14 +97,7 @@ impl Gen {
             87 => vec![v(b"HEXISTS"), self.key(HKEYS), self.pick(FIELDS)],
             88 => vec![v(b"HKEYS"), self.key(HKEYS)],
             89 => vec![v(b"HVALS"), self.key(HKEYS)],
-            90..=94 => {
-                let k = self.key(HKEYS); let f = self.pick(FIELDS);
-                for _ in 0..4 {
-                    let inc = self.pick(INCRS);
-                    if self.incr_safe(&k, &f, &inc) { return vec![v(b"HINCRBY"), k, f, inc]; }
-                }
-                vec![v(b"HINCRBY"), k, f, v(b"0")]
-            }
+            90..=94 => vec![v(b"HINCRBY"), self.key(HKEYS), self.pick(FIELDS), self.pick(INCRS)],
             // ---------------- other families: keys of another type, removal, deadlines
             95 => vec![v(b"SET"), self.any_key(), self.pick(ELEMS)],
             96 => vec![v(b"DEL"), self.any_key()],
@@ -164,15 +141,14 @@ pub fn dump_ops(conn: i64, ops: &mut Vec<Vec<Tok>>) {
 fn push_cmd(ops: &mut Vec<Vec<Tok>>, c: &[Vec<u8>]) { let refs: Vec<&[u8]> = c.iter().map(|x| &x[..]).collect(); ops.push(cmd_op(1, &refs)); }
 
 fn random_case(g: &mut Gen, id: String) -> Case {
-    g.iv.clear();
     let mut ops = vec![conn_op(1)];
     // seed: keys of every type of this family plus a string
     if g.r.chance(3, 4) {
         let mut c = vec![b"RPUSH".to_vec(), g.pick(LKEYS)]; c.extend(g.elems(7)); push_cmd(&mut ops, &c);
         let mut c = vec![b"SADD".to_vec(), g.pick(SKEYS)]; c.extend(g.elems(6)); push_cmd(&mut ops, &c);
         let mut c = vec![b"SADD".to_vec(), g.pick(SKEYS)]; c.extend(g.elems(4)); push_cmd(&mut ops, &c);
-        let k = g.pick(HKEYS); let mut c = vec![b"HSET".to_vec(), k.clone()];
-        for _ in 0..(1 + g.r.below(3)) { let f = g.pick(FIELDS); let x = g.pick(HVALUES); g.note_write(&k, &f, &x); c.push(f); c.push(x); }
+        let k = g.pick(HKEYS); let mut c = vec![b"HSET".to_vec(), k];
+        for _ in 0..(1 + g.r.below(3)) { let f = g.pick(FIELDS); let x = g.pick(HVALUES); c.push(f); c.push(x); }
         push_cmd(&mut ops, &c);
         push_cmd(&mut ops, &[b"SET".to_vec(), b"str1".to_vec(), b"v".to_vec()]);
     }
@@ -319,7 +295,7 @@ fn bulks(v: &V) -> Option<Vec<Vec<u8>>> {
 ///  * SMEMBERS / HKEYS replies have no duplicates;
 ///  * SPOP / SRANDMEMBER results are members according to the last SMEMBERS of that key when no write to the
 ///    key came in between;
-///  * LRANGE k s e with e < -len (len from an immediately preceding LLEN) is empty  [class lrange-stop-underflow].
+///  * LRANGE k s e with e < -len (len from a preceding LLEN) is empty (regression oracle of 2b792ef).
 pub fn judge(c: &Case, outs: &[Vec<Tok>]) -> Vec<String> {
     let mut fails = vec![];
     let mut last_type: Option<(Vec<u8>, Vec<u8>)> = None;
@@ -354,7 +330,7 @@ pub fn judge(c: &Case, outs: &[Vec<Tok>]) -> Vec<String> {
                 if name == b"LRANGE" && cmd.len() == 4 {
                     if let (Some((lk, n)), Some(e)) = (&llen, rust_i64(&cmd[3])) {
                         if *lk == key && e < -(*n as i128) {
-                            if let V::Array(l) = &reply { if !l.is_empty() { fails.push(fail("class=lrange-stop-underflow LRANGE with stop below -len is not empty")); } }
+                            if let V::Array(l) = &reply { if !l.is_empty() { fails.push(fail("LRANGE with stop below -len is not empty")); } }
                         }
                     }
                 }
